@@ -83,22 +83,15 @@ func (self *Transformer) stmtVariants(node ast.AnalyzedStatement) []ast.Analyzed
 				},
 				Range: node.Span(),
 			}))
-		output = append(output, ast.AnalyzedWhileStatement{
-			Condition: ast.AnalyzedBlockExpression{
-				Block: ast.AnalyzedBlock{
-					Statements: []ast.AnalyzedStatement{node},
-					Expression: nil,
-					Range:      node.Span(),
-					ResultType: ast.NewNeverType(),
-				},
-			},
+		// A `while` is never considered diverging by the analyzer: use a `loop` so that the return still ends the function.
+		output = append(output, ast.AnalyzedLoopStatement{
 			Body: ast.AnalyzedBlock{
-				Statements: make([]ast.AnalyzedStatement, 0),
+				Statements: []ast.AnalyzedStatement{node},
 				Expression: nil,
 				Range:      node.Span(),
-				ResultType: ast.NewNullType(node.Span()),
+				ResultType: ast.NewNeverType(),
 			},
-			NeverTerminates: false,
+			NeverTerminates: true,
 			Range:           node.Span(),
 		})
 	case ast.BreakStatementKind:
@@ -170,18 +163,21 @@ func (self *Transformer) stmtVariants(node ast.AnalyzedStatement) []ast.Analyzed
 
 		output = append(output, ast.AnalyzedLoopStatement{
 			Body:            self.Block(node.Body),
-			NeverTerminates: false,
+			NeverTerminates: node.NeverTerminates,
 			Range:           node.Span(),
 		})
-		output = append(output, ast.AnalyzedWhileStatement{
-			Condition: ast.AnalyzedBoolLiteralExpression{
-				Value: true,
-				Range: node.Range,
-			},
-			Body:            self.Block(node.Body),
-			NeverTerminates: false,
-			Range:           node.Span(),
-		})
+		// A `while true` is not considered diverging by the analyzer: only use it if the loop can be left.
+		if !node.NeverTerminates {
+			output = append(output, ast.AnalyzedWhileStatement{
+				Condition: ast.AnalyzedBoolLiteralExpression{
+					Value: true,
+					Range: node.Range,
+				},
+				Body:            self.Block(node.Body),
+				NeverTerminates: false,
+				Range:           node.Span(),
+			})
+		}
 	case ast.WhileStatementKind:
 		node := node.(ast.AnalyzedWhileStatement)
 		output = append(output, self.WhileStmtAsLoop(node)...)
@@ -216,9 +212,13 @@ func (self *Transformer) stmtVariants(node ast.AnalyzedStatement) []ast.Analyzed
 		return output
 	}
 
-	// Always true `if`
+	// A diverging statement must stay diverging: inside of an `if` without an else-branch or a loop which might not run,
+	// the analyzer would no longer accept code which relies on it (e.g. a function whose result is its final `return`).
+	if node.Type().Kind() == ast.NeverTypeKind {
+		return output
+	}
 
-	// TODO: maybe check if the node is NEVER? (if this breaks)
+	// Always true `if`
 	output = append(output, ast.AnalyzedExpressionStatement{
 		Expression: ast.AnalyzedIfExpression{
 			Condition: ast.AnalyzedBoolLiteralExpression{
